@@ -35,8 +35,12 @@ def main():
         return 2
     r = sh("git -C %s apply --whitespace=nowarn %s" % (REPO, patch))
     if r.returncode != 0:
-        print("patch does not apply:", r.stderr)
-        return 2
+        # the hooks may have moved the context lines since the worktree was made: retry with fuzz
+        r = sh("cd %s && patch -p1 -F3 --no-backup-if-mismatch < %s" % (REPO, patch))
+        if r.returncode != 0:
+            print("patch does not apply:", r.stdout, r.stderr)
+            sh("git -C %s checkout -- ." % REPO)
+            return 2
     results = {}
     try:
         for pid in ids:
